@@ -41,6 +41,10 @@ InitMon(p) ==
    op    |-> [i \in OpIds |-> NoOp],
    last  |-> "none",                  \* last environment event (for the finding key)
    ctx   |-> "",                      \* state of the operation that event refers to (for the finding key)
+   rerr  |-> "off",                   \* off | armed | disarming : a transport read error was reported and the server's
+                                      \* read-error time-out may still fire (it is disarmed by the next good read, but a
+                                      \* time-out that fires at that very moment ends the handler after that message)
+   broken |-> FALSE,                  \* the transport is broken for good: every read fails from now on
    wif   |-> FALSE,                   \* the transport has taken a message but the write call has not returned ("hold")
    bad   |-> "",
    cls   |-> "",
@@ -59,10 +63,21 @@ Ctx(m, id) == IF id \in OpIds
               ELSE "none//"
 
 SubSyms  == {"sub1q", "sub1s", "sub2q", "sub2s", "subPq", "missingid"}
+\* "subbad" = subscribe/start for id "1" whose payload cannot be deserialized (missing, string, array, number, null,
+\* non-string query); "initrej" = connection_init with a payload the InitFunc refuses; "readerr" = the transport
+\* reports a read error instead of a message
 CompSyms == {"comp1", "comp2", "comp9"}
 SubId(sym)  == CASE sym \in {"sub1q", "sub1s"} -> "1" [] sym \in {"sub2q", "sub2s"} -> "2" [] sym = "subPq" -> "P" [] OTHER -> ""
 SubKind(sym) == IF sym \in {"sub1s", "sub2s"} THEN "s" ELSE "q"
 CompId(sym) == CASE sym = "comp1" -> "1" [] sym = "comp2" -> "2" [] OTHER -> "9"
+
+\* every client message / read error: the handler is busy with it; a good message disarms the read-error time-out
+Busy(m0, sym, ctx) ==
+  [m0 EXCEPT !.hs = "busy", !.popt = {}, !.last = "in." \o sym, !.ctx = ctx,
+             !.rerr = IF sym = "readerr" THEN "armed" ELSE IF m0.rerr = "armed" THEN "disarming" ELSE m0.rerr]
+InCtx(m0, sym) == IF sym \in SubSyms THEN Ctx(m0, SubId(sym))
+                  ELSE IF sym \in CompSyms THEN Ctx(m0, CompId(sym))
+                  ELSE IF sym = "subbad" THEN Ctx(m0, "1") ELSE ""
 
 \* a subscribe/start that the protocol lets through: a new incarnation of the operation
 Activate(m, id, kind, k) ==
@@ -122,10 +137,15 @@ OutAck(m, e) ==
   ELSE IF Opt("ack", "") \in m.popt THEN [m EXCEPT !.popt = m.popt \ {Opt("ack", "")}]
   ELSE Reject(m, "OutputAllowed", "unsolicited-ack", e.a)
 
+\* the handler may (must, see "wedge") give up a transport that keeps failing: after persistent read errors, or when
+\* the read-error time-out that a single read error armed fires before the next good read disarmed it
+GaveUp(m) == m.broken \/ m.rerr # "off"
+
 \* The init timeout (4408) runs on its own timer: it may fire at any moment while the connection was never
 \* acknowledged, also while the handler is busy with a message (whatever that message obliged is moot then).
 Close(m, e) ==
-  IF e.code = 4408 /\ m.proto = "tws" /\ m.conn = "opened" /\ m.pend # "ack"
+  IF e.code = 0 /\ GaveUp(m) THEN [m EXCEPT !.conn = "closed", !.cc = 0, !.pend = "none"]   \* gave up: socket closed without a frame
+  ELSE IF e.code = 4408 /\ m.proto = "tws" /\ m.conn = "opened" /\ m.pend # "ack"
        THEN [m EXCEPT !.conn = "closed", !.cc = e.code, !.pend = "none"]
   ELSE IF m.pend = "close" /\ e.code \in m.pcodes THEN [m EXCEPT !.conn = "closed", !.cc = e.code, !.pend = "none"]
   ELSE IF m.pend = "close" THEN Reject(m, "CloseCode", "wrong-close-code", ToString(e.code))
@@ -134,13 +154,13 @@ Close(m, e) ==
 
 Rd(m) ==
   CASE m.hs \notin {"busy", "start"} -> Reject(m, "Harness", "rd-while-not-busy", m.hs)
-    [] m.conn = "closed"  -> [m EXCEPT !.hs = "reading", !.popt = {}]
+    [] m.conn = "closed"  -> [m EXCEPT !.hs = "reading", !.popt = {}, !.rerr = IF m.rerr = "disarming" THEN "off" ELSE m.rerr]
     [] m.pend = "close"   -> Reject(m, "CloseCode", "missing-close", m.last)
     [] m.pend # "none"    -> Reject(m, "NeverWedged", "unanswered", m.pend)
-    [] OTHER              -> [m EXCEPT !.hs = "reading", !.popt = {}]
+    [] OTHER              -> [m EXCEPT !.hs = "reading", !.popt = {}, !.rerr = IF m.rerr = "disarming" THEN "off" ELSE m.rerr]
 
 Exit(m) ==
-  IF m.conn = "closed" THEN [m EXCEPT !.hs = "exited"]
+  IF m.conn = "closed" \/ GaveUp(m) THEN [m EXCEPT !.hs = "exited"]
   ELSE Reject(m, "NeverWedged", "handler-exited-on-open-connection", m.last)
 
 Eof(m) ==
@@ -156,7 +176,7 @@ Exec(m, e) ==
        THEN Reject(m, "NoStartBeforeInit", "operation-started-without-accepted-subscribe", m.conn)
        ELSE m
 
-Live(m, id, k) == id \in OpIds /\ m.op[id].st = "active" /\ m.op[id].inc = k /\ m.conn # "closed"
+Live(m, id, k) == id \in OpIds /\ m.op[id].st = "active" /\ m.op[id].inc = k /\ m.conn # "closed" /\ m.hs # "exited"
 
 Eng(m, e) ==
   LET m1 == [m EXCEPT !.last = "eng." \o e.a, !.ctx = IF e.id = "" THEN "op=<none>"
